@@ -84,10 +84,13 @@ def apply_static_and_voyage(fc):
 T6 = HDR + [
     ('seqno', 'raw', 38, 2, 'C04'), ('dest_mmsi', 'raw', 40, 30, 'C04'), ('retransmit', 'bool', 70, 1, 'C04'),
     ('dac', 'raw', 72, 10, 'C04'), ('fid', 'raw', 82, 6, 'C04'),
+    # C15 names the application identifier fields as well as the payload bytes
+    ('dac', 'raw', 72, 10, 'C15'), ('fid', 'raw', 82, 6, 'C15'),
     ('data', 'expr:m.data@ =~= o.subrange(11, o.len() as int)', 88, 0, 'C15'),
 ]
 T8 = HDR + [
     ('dac', 'raw', 40, 10, 'C04'), ('fid', 'raw', 50, 6, 'C04'),
+    ('dac', 'raw', 40, 10, 'C15'), ('fid', 'raw', 50, 6, 'C15'),
     ('data', 'expr:m.data@ =~= o.subrange(7, o.len() as int)', 56, 0, 'C15'),
 ]
 
